@@ -5,7 +5,9 @@ EXTENDS Filters, Json
 RowVals == Vals \cup {NULL}
 RowsX(n)  == UNION {[1..k -> [x : RowVals, y : {0}]] : k \in 1..n}
 RowsXY(n) == UNION {[1..k -> [x : {0, 2, NULL}, y : {0, 2, NULL}]] : k \in 1..n}
-RGs(rowsets, parts) == {[rows |-> rs, stats |-> st, p |-> pp] : rs \in rowsets, st \in BOOLEAN, pp \in parts}
+RGs(rowsets, parts) == {[rows |-> rs, stats |-> st, only |-> "both", p |-> pp] : rs \in rowsets, st \in BOOLEAN, pp \in parts}
+(* min/max statistics written for ONE of the two value columns only (write(..., stats=[column])) *)
+RGsCols(rowsets, parts) == {[rows |-> rs, stats |-> TRUE, only |-> o, p |-> pp] : rs \in rowsets, o \in {"x", "y"}, pp \in parts}
 
 Sets2(consts) == {{}} \cup {{a} : a \in consts} \cup {{a, b} : a \in consts, b \in consts}
 AtomsOn(col, consts, sets) == {Atom(col, op, {c}) : op \in ScalarOps, c \in consts}
@@ -29,6 +31,7 @@ RGsPair2 == RGs(RowsXY(2), {NoPart, 0, 1})
 RowsXYq == [1..1 -> [x : {0, 2, NULL}, y : {0, 2}]] \cup [1..2 -> [x : {0, 2, NULL}, y : {0, 2}]]
 RGsPairQ == RGs(RowsXYq, {NoPart, 0, 1})
 RGsSingle1 == RGs(RowsX(1), {NoPart, 0, 1})
+RGsPairCols == RGsCols(RowsXYq, {NoPart, 0})
 
 (* spec -> code: the (op, constant, min, max) tuples the pruner is asked about, with the transcription's answer *)
 StatPairs == {<<a, b>> \in (Vals \cup {NoVal}) \X (Vals \cup {NoVal}) : a = NoVal \/ b = NoVal \/ a <= b}
